@@ -18,13 +18,15 @@ Idempotency (necessary structural condition only):
         EncryptionGroup::receive, EncryptionOrdererState::add_dependency, IdentityManager::register_member)
         reaches it only through the "not seen yet" edge of a duplicate test on the message id
         (has_seen / contains_key / contains).  Without such a test a second delivery re-runs the mutator
-        and re-emits its events.  NOT decided: that the test is true after the first delivery for every
-        history, nor equality of states.
+        and re-emits its events.
+  C39.4 the duplicate test becomes true: behind the "not seen" edge every path to a successful return passes
+        the call that records the id for that test (has_seen <-> add_dependency, contains_key on the
+        processed-operations map <-> GroupCrdt::process).  NOT decided: equality of states.
 """
 import re
 
 from facts import Place, op_place, strip_generics
-from mir import (sem_calls, calls_to, branches_on, deep_locals, callers_of, panic_sites, reachable_bodies,
+from mir import (sem_calls, calls_to, branches_on, deep_locals, callers_of, panic_sites, reachable_bodies, origins,
                  PANIC_CALLEES, callee_is, fname, trace_back)
 
 ROOT = "p2panda_spaces::manager::Manager::process"
@@ -283,6 +285,13 @@ DUP_TESTS = ("p2panda_spaces::encryption::orderer::EncryptionOrdererState::has_s
              "alloc::collections::btree::map::BTreeMap::contains_key", "alloc::collections::btree::set::BTreeSet::contains")
 
 
+RECORDERS = {
+    # duplicate test -> the call(s) that make it true for this message id
+    "has_seen": ("p2panda_spaces::encryption::orderer::EncryptionOrdererState::add_dependency",),
+    "contains_key": ("p2panda_auth::group::crdt::GroupCrdt::process",),
+}
+
+
 def rule_idempotent(ctx):
     prog = ctx.prog
     roots = prog.bodies_at(ROOT)
@@ -317,6 +326,43 @@ def rule_idempotent(ctx):
             if g:
                 ctx.sample({"handler": hname, "mutator": m.name, "guarded_by": [d.name.rsplit("::", 1)[-1] + "@" + d.loc() for d in g]})
     ctx.floor("C39.3", "mutator calls in message handlers", n, 6)
+    # C39.4 — the duplicate test must become true: every successful path behind the not-seen edge records the id
+    from mir import ok_exit_blocks
+    n_rec = 0
+    for b in bodies:
+        for d in sem_calls(b):
+            if not d.is_(*DUP_TESTS) or d.result is None or len(d.args) < 2:
+                continue
+            short = d.name.rsplit("::", 1)[-1]
+            recs = RECORDERS.get(short)
+            if recs is None:
+                continue
+            # contains_key / contains are generic: only the tests on the processed-operations map count
+            if short != "has_seen" and "operations" not in origins(b, d.args[0]).fields:
+                continue
+            rec_bbs = {c.bb for c in sem_calls(b) if c.is_(*recs)}
+            # the "not seen" world: all branches on this test's result take their false edge (the bool may be tested
+            # more than once, e.g. `duplicate_pointer`); in that world every successful return lies behind the recorder
+            brs = branches_on(b, d.result)
+            f_edges = [br.edge("false") for br in brs if br.edge("false") is not None]
+            t_edges = {br.edge("true") for br in brs if br.edge("true") is not None}
+            if not f_edges:
+                continue
+            n_rec += 1
+            downstream = set()
+            for e in f_edges:
+                downstream |= b.reachable(e[1], avoid_edges=t_edges)
+            free = b.reachable(0, avoid=rec_bbs, avoid_edges=t_edges)
+            oks = [bb for bb in ok_exit_blocks(b) if bb in downstream]
+            missed = [bb for bb in oks if bb in free]
+            hname = b.root.split("::", 1)[-1]
+            ctx.ob("C39.4", "%s: every successful path behind `%s == false` records the message" % (hname, short),
+                   bool(oks) and not missed,
+                   "`%s`: after the duplicate test `%s` said `not seen`, there is a path to a successful return that does "
+                   "not pass %s — the message is processed but never recorded, so the same message delivered again is "
+                   "processed (and its events emitted) a second time" % (b.root, short, " / ".join(r.rsplit("::", 1)[-1] for r in recs)),
+                   site=d.loc(), key="C39.4:%s:%s-recorded" % (hname, short))
+    ctx.floor("C39.4", "duplicate tests paired with their recorder", n_rec, 3)
 
 
 def run(ctx):
